@@ -209,7 +209,7 @@ const SPECS: &[PropSpec] = &[
         id: "C11",
         engine: "clientsim",
         level: "fault_enumeration",
-        runs_quick: 4000,
+        runs_quick: 10000,
         runs_thorough: 60000,
         rule: "one evaluation = one seeded history (half of them: v4, QoS0/1 only, in-order acks; limit from {3,4,5,10} so that ids wrap, channel capacity {1,5,10}, 3-30 requests) re-executed for EVERY cut offset of both byte streams as in C02, with session_present 1/0 on reconnect and, with 40%, up to two further cuts (failures during the replay); on a resumed session every carried-over registered publish must reappear with its original id before any request issued after the failure, and (v4, no QoS2, broker acked in order) in first-transmission order; without session no carried-over payload may appear, pending must be empty at the first Ok poll and a fresh QoS1 request must reach the wire within 1 simulated second; crash_points_enumerated counts the re-executions; non-trivial = a resumed session retransmitted all carried publishes, or a no-session reconnect was checked",
         state_measure: "after every poll() return: (inflight, #pending cap 255, collision parked?, #queued events cap 127, #connections, Ok/Err, #acks owed by the script)",
